@@ -1,5 +1,7 @@
 """C15 — weighted backends get proportional shares (DESIGN.md §6 C15, §7 row 4, §8)."""
 import collections
+import concurrent.futures
+import json
 import os
 
 import vcheck
@@ -9,36 +11,52 @@ def fields(line):
     return dict(p.split("=", 1) for p in line.split("\t") if "=" in p)
 
 
-def signature(clause, f):
-    """Clause reported by the Lean judge -> finding signature (specific to the failing input class)."""
+def signature(clause):
+    """Clause reported by the Lean judge -> finding signature (specific to the failing input class).
+    The first two are the signatures of the pre-fix float64 algorithm (fixed in /repo by 286dc83): a regression
+    is reported under the same names."""
     if clause == "share_syntax:last:-0.00":
         return "C15:last-share-negative-zero"
     if clause == "zero_weight_gets_traffic:last:remainder":
         return "C15:zero-weight-last-backend-gets-remainder"
+    parts = clause.split(":")
+    if parts[0] == "share_syntax" and len(parts) >= 3:
+        pct = parts[2]
+        kind = "negative" if "-" in pct else "zero" if pct.strip("0.") == "" else "malformed"
+        return f"C15:share_syntax:{parts[1]}:{kind}"
     return "C15:" + clause
 
 
-def run(ctx):
-    ctx.prepare()
-    ctx.obligations("NGF.Props.C15")
-    if ctx.tier == "thorough":
-        ctx.leanchecker("NGF.Props.C15")
+def pdriver(ctx, mode, lines, workers=12, chunk=4000):
+    """ctx.driver on big inputs: the lines are split over several driver processes."""
+    if len(lines) <= chunk:
+        return ctx.driver(mode, lines)
+    parts = [lines[i:i + chunk] for i in range(0, len(lines), chunk)]
+    with concurrent.futures.ThreadPoolExecutor(max_workers=workers) as ex:
+        res = list(ex.map(lambda p: ctx.driver(mode, p), parts))
+    return [r for part in res for r in part]
 
-    corpus_dir = os.path.join(vcheck.VERIF, "corpus", "C15")
-    args = ["-seed", ctx.seed]
-    if ctx.tier == "quick":
-        args += ["-n", 6000, "-exhaustive", 24]
-    else:
-        args += ["-n", 1000000, "-exhaustive", 200]
-    cp = os.path.join(corpus_dir, "weights.txt")
-    if os.path.exists(cp):
-        args += ["-corpus", cp]
-    lines = ctx.harness(args) or []
-    if not getattr(ctx, "harness_ok", False):
-        ctx.broken("harness does not build against the current tree", detail="\n".join(ctx.build_errors))
 
+class Stats:
+    def __init__(self):
+        self.evaluations = self.diffs = self.judged = 0
+        self.strict_fail = self.deficit = self.positional = 0
+        self.wcases = self.anomalies = self.prefix_matches = 0
+        self.clause_hist = collections.Counter()
+        self.reported = collections.Counter()
+        self.fam = collections.Counter()
+        self.lens = collections.Counter()
+        self.vpat = collections.Counter()
+        self.distinct = set()
+        self.nontrivial = set()
+        self.samples = []
+
+
+def process(ctx, st, lines):
     anomalies = [l for l in lines if l.startswith("X ")]
-    cases = [l for l in lines if not l.startswith("X ")]
+    wlines = [l for l in lines if l.startswith("W\t")]
+    cases = [l for l in lines if not l.startswith("X ") and not l.startswith("W\t")]
+    st.anomalies += len(anomalies)
     for a in anomalies[:3]:
         ctx.finding("C15:generator-anomaly:" + a[2:].split("\t")[0].split(":")[0][:40],
                     "the generator failed on a backend group: " + a[2:120], {"line": a})
@@ -47,79 +65,141 @@ def run(ctx):
 
     fs = [fields(l) for l in cases]
     nb = [0 if f["w"] == "-" else len(f["w"].split(",")) for f in fs]
+    st.evaluations += len(cases)
 
     # ---- the property itself, evaluated by the Lean judge on the generated text (rules with >= 2 backends)
     jidx = [i for i, n in enumerate(nb) if n >= 2]
-    verdicts = ctx.driver("judge", [cases[i] for i in jidx])
-    clause_hist = collections.Counter()
-    strict_fail = deficit = 0
-    reported = collections.Counter()
+    st.judged += len(jidx)
+    verdicts = pdriver(ctx, "judge", [cases[i] for i in jidx])
     for i, v in zip(jidx, verdicts):
         if v.startswith("ok"):
             kv = dict(p.split("=") for p in v.split(" ")[1:])
-            strict_fail += kv.get("strict") == "0"
-            deficit += int(kv.get("deficit", "0"))
+            st.strict_fail += kv.get("strict") == "0"
+            st.deficit += int(kv.get("deficit", "0"))
+            st.positional += kv.get("positional") == "1"
             continue
         if v == "bad-op":
             ctx.broken("judge could not decode a harness line", replay={"line": cases[i]})
             continue
         for clause in v.split(" ")[1:]:
-            sig = signature(clause, fs[i])
-            clause_hist[sig] += 1
-            reported[sig] += 1
-            if reported[sig] <= 2:
+            sig = signature(clause)
+            st.clause_hist[sig] += 1
+            st.reported[sig] += 1
+            if st.reported[sig] <= 2:
                 f = fs[i]
                 ctx.finding(sig, f"weights [{f['w']}] valid [{f['v']}]: clause {clause} fails on the generated block "
                                  f"{f['block']}", {"weights": f["w"], "valid": f["v"], "ups": f["ups"],
                                                    "block": f["block"], "pp": f["pp"], "clause": clause})
 
     # ---- correspondence: the Lean model must print the same block and proxy_pass, string for string
-    outs = ctx.driver("model", cases)
-    diffs = 0
-    for l, f, o in zip(cases, fs, outs):
+    outs = pdriver(ctx, "model", cases)
+    diff_idx = []
+    for k, (l, f, o) in enumerate(zip(cases, fs, outs)):
         g = fields(o)
         if o == "bad-op" or g.get("block") != f["block"] or g.get("pp") != f["pp"]:
-            diffs += 1
-            if diffs <= 3:
+            diff_idx.append(k)
+    if diff_idx:
+        # is it the pre-fix float64 algorithm (regression of 286dc83)?
+        pre = pdriver(ctx, "prefix", [cases[k] for k in diff_idx])
+        same_as_prefix = sum(1 for k, o in zip(diff_idx, pre)
+                             if fields(o).get("block") == fs[k]["block"] and fields(o).get("pp") == fs[k]["pp"])
+        st.prefix_matches += same_as_prefix
+        for k in diff_idx:
+            st.diffs += 1
+            if st.diffs <= 3:
+                f = fs[k]
+                note = (" — every differing block equals the PRE-FIX float64 algorithm (regression of 286dc83)"
+                        if same_as_prefix == len(diff_idx) else "")
                 ctx.broken(f"model and generator disagree on weights [{f['w']}] valid [{f['v']}]: "
-                           f"generator block={f['block']} pp={f['pp']} / model {o}",
-                           replay={"line": l, "model": o})
-        elif g.get("range") != "1":
-            ctx.broken(f"a float operation left the normal binary64 range on weights [{f['w']}]", replay={"line": l})
+                           f"generator block={f['block']} pp={f['pp']} / model {outs[k]}" + note,
+                           replay={"line": cases[k], "model": outs[k]})
 
-    # ---- the repaired variant (candidate fix in notes/C15.md) satisfies the judge on the same vectors (statistic)
-    fam = collections.Counter(f["fam"] for f in fs)
-    lens = collections.Counter(nb)
-    vpat = collections.Counter(
-        "all-valid" if "0" not in f["v"] else "all-invalid" if "1" not in f["v"] else "mixed" for f in fs)
-    distinct = {(f["w"], f["v"]) for f in fs}
-    nontrivial = {(f["w"], f["v"]) for f, n in zip(fs, nb)
-                  if n >= 2 and len({w for w in f["w"].split(",") if w != "0"}) >= 1 and
-                  sum(1 for w in f["w"].split(",") if w != "0") >= 2}
+    # ---- weights reach the generator through createBackendRef: default 1, out of range -> 0 (real code via overlay)
+    st.wcases += len(wlines)
+    wv = ctx.driver("wjudge", wlines)
+    wm = ctx.driver("wmodel", wlines)
+    for l, v, m in zip(wlines, wv, wm):
+        f = fields(l)
+        if v != "ok":
+            ctx.finding("C15:createBackendRef:" + v.replace("fail ", ""),
+                        f"createBackendRef turns weight {f['in']} into {f['out']}: {v}", {"line": l})
+        elif m != "out=" + f["out"]:
+            ctx.broken(f"weight model and createBackendRef disagree on weight {f['in']}: {f['out']} / {m}",
+                       replay={"line": l})
+
+    for f, n in zip(fs, nb):
+        st.fam[f["fam"]] += 1
+        st.lens[n] += 1
+        st.vpat["all-valid" if "0" not in f["v"] else "all-invalid" if "1" not in f["v"] else "mixed"] += 1
+        key = hash((f["w"], f["v"]))
+        st.distinct.add(key)
+        if n >= 2 and sum(1 for w in f["w"].split(",") if w != "0") >= 2:
+            st.nontrivial.add(key)
+    if len(st.samples) < 6:
+        st.samples += [f"w={f['w']} v={f['v']}" for f in fs[:1] + fs[len(fs) // 2:len(fs) // 2 + 1] + fs[-1:]]
+
+
+def run(ctx):
+    ctx.prepare()
+    ctx.obligations("NGF.Props.C15")
+    # Redundant with the Lean theorems facts_*_pinned (vcheck now holds the translator lock across regenerate+build):
+    # the facts this run extracted are compared with the values the theorems were proved against, which gives a
+    # readable message naming the changed statement.
+    pinned = json.load(open(os.path.join(vcheck.VERIF, "props", "c15_facts.json")))
+    for k, v in sorted(pinned.items()):
+        if ctx.facts.get(k) != v:
+            ctx.broken(f"source fact {k} changed: {json.dumps(ctx.facts.get(k))[:300]} (pinned: {json.dumps(v)[:200]})",
+                       kind="obligation")
+    if ctx.tier == "thorough":
+        ctx.leanchecker("NGF.Props.C15")
+
+    cp = os.path.join(vcheck.VERIF, "corpus", "C15", "weights.txt")
+    base = ["-corpus", cp] if os.path.exists(cp) else []
+    if ctx.tier == "quick":
+        runs = [["-seed", ctx.seed, "-n", 12000, "-exhaustive", 30] + base]
+    else:
+        runs = [["-seed", ctx.seed, "-n", 0, "-exhaustive", 200] + base]
+        runs += [["-seed", ctx.seed + 1000 * k, "-n", 100000] for k in range(1, 11)]
+    st = Stats()
+    for args in runs:
+        lines = ctx.harness(args) or []
+        if not getattr(ctx, "harness_ok", False):
+            ctx.broken("harness does not build against the current tree", detail="\n".join(ctx.build_errors))
+            break
+        process(ctx, st, lines)
+        if len(ctx.brokens) > 20 or len(ctx.findings) > 200:
+            break
+    if st.wcases == 0 and getattr(ctx, "harness_ok", False):
+        ctx.broken("harness produced no createBackendRef weight cases")
+
     ctx.finish({
-        "evaluations": len(cases),
-        "distinct_nontrivial": len(nontrivial),
+        "evaluations": st.evaluations,
+        "distinct_nontrivial": len(st.nontrivial),
         "rule": "backend groups rendered by the real config.Generator (split_clients block + proxy_pass of the rule's "
                 "location, compared string for string with the Lean model and judged by the Lean judge); non-trivial = "
                 "distinct (weights, validity) with >= 2 backends of which >= 2 have non-zero weight",
-        "samples": [f"w={f['w']} v={f['v']}" for f in fs[:2] + fs[len(fs) // 2:len(fs) // 2 + 2] + fs[-1:]],
-        "traces_validated_against_impl": len(cases) - diffs,
-        "correspondence_diffs": diffs,
-        "judged_rules": len(jidx),
-        "distinct_cases": len(distinct),
-        "family_histogram": dict(fam),
-        "backend_count_histogram": {str(k): v for k, v in sorted(lens.items())},
-        "validity_pattern_histogram": dict(vpat),
-        "judge_clause_failures": dict(clause_hist),
-        "stricter_reading_every_backend_within_0.01_fails_on": strict_fail,
-        "nonlast_share_one_hundredth_low_from_float_rounding": deficit,
-        "generator_anomalies": len(anomalies),
+        "samples": st.samples[:6],
+        "traces_validated_against_impl": st.evaluations - st.diffs,
+        "correspondence_diffs": st.diffs,
+        "judged_rules": st.judged,
+        "distinct_cases": len(st.distinct),
+        "family_histogram": dict(st.fam),
+        "backend_count_histogram": {str(k): v for k, v in sorted(st.lens.items())},
+        "validity_pattern_histogram": dict(st.vpat),
+        "judge_clause_failures": dict(st.clause_hist),
+        "stricter_reading_every_backend_within_0.01_fails_on": st.strict_fail,
+        "positional_reading_nonlast_floor_last_remainder_holds_on": st.positional,
+        "differing_blocks_equal_to_prefix_float_algorithm": st.prefix_matches,
+        "createBackendRef_weight_cases": st.wcases,
+        "nonlast_share_one_hundredth_below_exact_two_decimal_value": st.deficit,
+        "generator_anomalies": st.anomalies,
     }, assumptions=[
-        "IEEE-754 binary64 with round-to-nearest-even for +,-,*,/ and float64(int32); Go does not fuse the operations "
-        "of percentOf (no x*y+z shape); strconv formats %.2f by correct rounding of the exact binary value",
+        "Go int64 arithmetic (no overflow: 10^6*10^4 < 2^63, proved) and fmt %d.%02d; for the pre-fix variant: IEEE-754 "
+        "binary64 round-to-nearest-even and correctly rounded %.2f",
         "NGINX reads a split_clients percentage with ngx_atofp(.,2), rejects 0 and a sign, and ignores `#` lines",
-        "weights reach the generator through createBackendRef (range [0,10^6], pinned by the translator); at most 16 "
-        "backendRefs per rule (Gateway API CRD maxItems)",
+        "weights reach the generator through createBackendRef (range [0,10^6]: checked on the real function and pinned "
+        "by the translator); at most 16 backendRefs per rule (Gateway API CRD maxItems)",
     ], trusted=[
-        "NGF.F64: rational model of binary64 rounding (exponent range checked at run time by the driver, not proved)",
+        "addToLastNonZero is the structural transcription of `lastNonZero`/`cents[lastNonZero] += remaining` "
+        "(checked string for string against the generator on every vector)",
     ])
